@@ -47,9 +47,12 @@ structure ShardInv (sh : Shard) : Prop where
   syncNone : sh.series.immutable = none ↔ sh.minv.frz = none
   syncCur : sh.series.mutEmpty = true ↔ sh.minv.cur = []
   syncFrz : ∀ d e l, sh.series.immutable = some (d, e) → sh.minv.frz = some l → (e = true ↔ l = [])
+  /-- the IsEmpty() flags of the series dictionary are accurate -/
+  mutE : sh.series.mutEmpty = true → ∀ b n, sh.series.mutable b n = none
+  immE : ∀ d, sh.series.immutable = some (d, true) → ∀ b n, d b n = none
 
 theorem shardInv_init : ShardInv {} := by
-  refine ⟨rfl, ?_, ?_, ?_, ?_, ?_, ?_, ?_, ?_, ?_, ?_⟩ <;> intros <;> simp_all [lookup_eq, KvStore.immDict, Dict.empty]
+  refine ⟨rfl, ?_, ?_, ?_, ?_, ?_, ?_, ?_, ?_, ?_, ?_, ?_, ?_⟩ <;> intros <;> simp_all [lookup_eq, KvStore.immDict, Dict.empty]
 
 /-- every id of the bucket lies below the id `createSeriesID` hands out next -/
 theorem createSeriesID_fresh {sh : Shard} (inv : ShardInv sh) {m i : Nat} (h : (m, i) ∈ sh.minv.all) :
@@ -81,7 +84,8 @@ theorem shardInv_created {sh : Shard} (inv : ShardInv sh) {m ts : Nat} (hm : sh.
     by_cases hk : m' = m ∧ ts' = ts
     · obtain ⟨rfl, rfl⟩ := hk; rw [hm] at h; cases h
     · simp [hk, h]
-  refine ⟨inv.snapDisk, ?_, ?_, ?_, ?_, ?_, inv.diskCover, inv.immCover, inv.syncNone, ?_, inv.syncFrz⟩
+  refine ⟨inv.snapDisk, ?_, ?_, ?_, ?_, ?_, inv.diskCover, inv.immCover, inv.syncNone, ?_, inv.syncFrz,
+    fun hh => absurd hh (by simp [Shard.created, KvStore.insert]), inv.immE⟩
   · intro m' ts' i h; exact keep _ _ _ (inv.immSub _ _ _ h)
   · intro m' ts' i h; exact keep _ _ _ (inv.diskSub _ _ _ h)
   · intro m' ts' i h
@@ -195,14 +199,14 @@ theorem shardInv_prepare {sh : Shard} (inv : ShardInv sh) : ShardInv sh.prepareF
       simp [Shard.prepareFlush, hs, hm]
     rw [this]
     exact ⟨inv.snapDisk, inv.immSub, inv.diskSub, inv.post, inv.cache, inv.inj, inv.diskCover, inv.immCover,
-      inv.syncNone, inv.syncCur, inv.syncFrz⟩
+      inv.syncNone, inv.syncCur, inv.syncFrz, inv.mutE, inv.immE⟩
   | none =>
     have hf : sh.minv.frz = none := inv.syncNone.1 him
     have himm : sh.series.prepareFlush.immDict = sh.series.mutable := by simp [KvStore.prepareFlush, him, KvStore.immDict]
     have hfrz : sh.minv.prepareFlush.frzList = sh.minv.cur := by simp [Layers.prepareFlush, hf, Layers.frzList]
     have hdisk : sh.minv.prepareFlush.disk = sh.minv.disk := by simp [Layers.prepareFlush, hf]
     have hfl0 : sh.minv.frzList = [] := by simp [Layers.frzList, hf]
-    refine ⟨?_, ?_, ?_, ?_, ?_, ?_, ?_, ?_, ?_, ?_, ?_⟩
+    refine ⟨?_, ?_, ?_, ?_, ?_, ?_, ?_, ?_, ?_, ?_, ?_, ?_, ?_⟩
     · show sh.series.prepareFlush.snap = sh.series.prepareFlush.disk
       rw [hd, hsn]; exact inv.snapDisk
     · intro m ts i h
@@ -253,6 +257,117 @@ theorem shardInv_prepare {sh : Shard} (inv : ShardInv sh) : ShardInv sh.prepareF
       simp [KvStore.prepareFlush, him] at h1'
       simp [Layers.prepareFlush, hf] at h2'
       rw [← h1'.2, ← h2']; exact inv.syncCur
+    · intro _ b n
+      show sh.series.prepareFlush.mutable b n = none
+      simp [KvStore.prepareFlush, him, Dict.empty]
+    · intro d hd b n
+      have hd' : sh.series.prepareFlush.immutable = some (d, true) := hd
+      simp [KvStore.prepareFlush, him] at hd'
+      rw [← hd'.1]; exact inv.mutE hd'.2 b n
+
+/-- `ShardInv` talks about the series dictionary, the sequence cache and the metric→series postings only -/
+theorem shardInv_of_parts {s s' : Shard} (h1 : s'.series = s.series) (h2 : s'.seqCache = s.seqCache) (h3 : s'.minv = s.minv)
+    (inv : ShardInv s) : ShardInv s' := by
+  obtain ⟨a1, a2, a3, a4, a5, a6, a7, a8, a9, a10, a11, a12, a13⟩ := inv
+  refine ⟨?_, ?_, ?_, ?_, ?_, ?_, ?_, ?_, ?_, ?_, ?_, ?_, ?_⟩ <;> (try rw [h1]) <;> (try rw [h2]) <;> (try rw [h3]) <;> assumption
+
+theorem layers_dropEmpty_all {α : Type} (l : Layers α) (a : α) : a ∈ l.dropEmpty.all ↔ a ∈ l.all := by
+  unfold Layers.dropEmpty
+  cases h : l.frz with
+  | none => simp
+  | some x => cases x <;> simp [Layers.all, h]
+
+/-- forgetting the empty immutable maps of a shard (series dictionary and postings are empty together) -/
+theorem shardInv_dropEmpty {sh : Shard} (inv : ShardInv sh) : ShardInv sh.dropEmpty := by
+  cases him : sh.series.immutable with
+  | none =>
+    have hf := inv.syncNone.1 him
+    refine shardInv_of_parts (s := sh) (s' := sh.dropEmpty) ?_ rfl ?_ inv
+    · show sh.series.dropEmpty = sh.series; simp [KvStore.dropEmpty, him]
+    · show sh.minv.dropEmpty = sh.minv; simp [Layers.dropEmpty, hf]
+  | some p =>
+    obtain ⟨d, e⟩ := p
+    obtain ⟨l, hl⟩ : ∃ l, sh.minv.frz = some l := by
+      cases hf : sh.minv.frz with
+      | none => have := inv.syncNone.2 hf; rw [him] at this; cases this
+      | some l => exact ⟨l, rfl⟩
+    have hs := inv.syncFrz d e l him hl
+    cases e with
+    | false =>
+      have hne : l ≠ [] := fun h => by have := hs.2 h; cases this
+      refine shardInv_of_parts (s := sh) (s' := sh.dropEmpty) ?_ rfl ?_ inv
+      · show sh.series.dropEmpty = sh.series; simp [KvStore.dropEmpty, him]
+      · show sh.minv.dropEmpty = sh.minv
+        cases l with
+        | nil => exact absurd rfl hne
+        | cons a r => simp [Layers.dropEmpty, hl]
+    | true =>
+      have hl0 : l = [] := hs.1 rfl
+      subst hl0
+      have hd : ∀ b n, d b n = none := inv.immE d him
+      have hser : sh.series.dropEmpty = { sh.series with immutable := none } := by simp [KvStore.dropEmpty, him]
+      have hminv : sh.minv.dropEmpty = { sh.minv with frz := none } := by simp [Layers.dropEmpty, hl]
+      have hlk : ∀ m ts, sh.series.dropEmpty.lookup m ts = sh.series.lookup m ts := lookup_dropEmpty inv.immE
+      have hall : ∀ p, p ∈ sh.minv.dropEmpty.all ↔ p ∈ sh.minv.all := layers_dropEmpty_all sh.minv
+      refine ⟨?_, ?_, ?_, ?_, ?_, ?_, ?_, ?_, ?_, ?_, ?_, ?_, ?_⟩
+      · show sh.series.dropEmpty.snap = sh.series.dropEmpty.disk
+        rw [hser]; exact inv.snapDisk
+      · intro m ts i h
+        have h' : sh.series.dropEmpty.immDict m ts = some i := h
+        rw [hser] at h'; simp [KvStore.immDict, Dict.empty] at h'
+      · intro m ts i h
+        show sh.series.dropEmpty.lookup m ts = some i
+        have h' : sh.series.dropEmpty.disk m ts = some i := h
+        rw [hser] at h'
+        rw [hlk]; exact inv.diskSub _ _ _ h'
+      · intro m ts i h
+        have h' : sh.series.dropEmpty.lookup m ts = some i := h
+        rw [hlk] at h'
+        show (m, i) ∈ sh.minv.dropEmpty.all
+        rw [hall]; exact inv.post _ _ _ h'
+      · intro m c hc i hi
+        have hi' : (m, i) ∈ sh.minv.dropEmpty.all := hi
+        rw [hall] at hi'; exact inv.cache m c hc i hi'
+      · intro m t1 t2 i h1 h2
+        have h1' : sh.series.dropEmpty.lookup m t1 = some i := h1
+        have h2' : sh.series.dropEmpty.lookup m t2 = some i := h2
+        rw [hlk] at h1' h2'; exact inv.inj _ _ _ _ h1' h2'
+      · intro m ts i h
+        have h' : sh.series.dropEmpty.disk m ts = some i := h
+        rw [hser] at h'
+        show (m, i) ∈ sh.minv.dropEmpty.disk
+        rw [hminv]; exact inv.diskCover _ _ _ h'
+      · intro m ts i h
+        have h' : sh.series.dropEmpty.immDict m ts = some i := h
+        rw [hser] at h'; simp [KvStore.immDict, Dict.empty] at h'
+      · show sh.series.dropEmpty.immutable = none ↔ sh.minv.dropEmpty.frz = none
+        rw [hser, hminv]; simp
+      · show sh.series.dropEmpty.mutEmpty = true ↔ sh.minv.dropEmpty.cur = []
+        rw [hser, hminv]; exact inv.syncCur
+      · intro d' e' l' h1 _
+        have h1' : sh.series.dropEmpty.immutable = some (d', e') := h1
+        rw [hser] at h1'; cases h1'
+      · intro hm b n
+        have hm' : sh.series.dropEmpty.mutEmpty = true := hm
+        rw [hser] at hm'
+        show sh.series.dropEmpty.mutable b n = none
+        rw [hser]; exact inv.mutE hm' b n
+      · intro d' hd'
+        have h1' : sh.series.dropEmpty.immutable = some (d', true) := hd'
+        rw [hser] at h1'; cases h1'
+
+theorem shardInv_prepareE {sh : Shard} (inv : ShardInv sh) (se : Bool) : ShardInv (sh.prepareFlushE se) := by
+  unfold Shard.prepareFlushE
+  cases se with
+  | false => simpa using shardInv_prepare inv
+  | true => simpa using shardInv_prepare (shardInv_dropEmpty inv)
+
+theorem series_lookup_prepareE {sh : Shard} (inv : ShardInv sh) (se : Bool) (m ts : Nat) :
+    (sh.prepareFlushE se).series.lookup m ts = sh.series.lookup m ts := by
+  unfold Shard.prepareFlushE
+  cases se with
+  | false => simp [Shard.prepareFlush, lookup_prepare]
+  | true => simp [Shard.prepareFlush, Shard.dropEmpty, lookup_prepare, lookup_dropEmpty inv.immE]
 
 /-- the kv family of the series dictionary after its flush: covered by the flushed postings -/
 theorem series_flush_cover {sh : Shard} (inv : ShardInv sh) (m ts i : Nat)
@@ -282,7 +397,7 @@ theorem shardInv_flush {sh : Shard} (inv : ShardInv sh) :
   rw [e]
   have hl := lookup_flush sh.series inv.snapDisk
   have hall : ∀ p, p ∈ sh.minv.flush.all ↔ p ∈ sh.minv.all := layers_flush_all sh.minv
-  refine ⟨flush_snap _ inv.snapDisk, ?_, ?_, ?_, ?_, ?_, ?_, ?_, ?_, ?_, ?_⟩
+  refine ⟨flush_snap _ inv.snapDisk, ?_, ?_, ?_, ?_, ?_, ?_, ?_, ?_, ?_, ?_, ?_, ?_⟩
   · intro m ts i h
     show sh.series.flush.lookup m ts = some i
     rw [hl]; exact inv.immSub _ _ _ (flush_immDict _ _ _ _ h)
@@ -367,6 +482,25 @@ theorem shardInv_flush {sh : Shard} (inv : ShardInv sh) :
           rw [him] at h1'; rw [hf] at h2'
           simp at h1' h2'
           rw [← h1'.2, ← h2']; simp
+  · intro hm b n
+    have hm' : sh.series.flush.mutEmpty = true := hm
+    rw [flush_mutEmpty] at hm'
+    show sh.series.flush.mutable b n = none
+    have : sh.series.flush.mutable = sh.series.mutable := by
+      cases him : sh.series.immutable with
+      | none => simp [KvStore.flush, KvStore.commit, KvStore.finish, him]
+      | some p => obtain ⟨d, e⟩ := p; cases e <;> simp [KvStore.flush, KvStore.commit, KvStore.finish, him]
+    rw [this]; exact inv.mutE hm' b n
+  · intro d hd
+    have hd' : sh.series.flush.immutable = some (d, true) := hd
+    rw [flush_immutable] at hd'
+    cases him : sh.series.immutable with
+    | none => rw [him] at hd'; cases hd'
+    | some p =>
+      obtain ⟨d0, e0⟩ := p
+      cases e0 with
+      | false => rw [him] at hd'; cases hd'
+      | true => rw [him] at hd'; simp at hd'; subst hd'; exact inv.immE d0 him
 
 /-- reopen after any prefix of an index flush (a crash point inside it) -/
 theorem shardInv_recover_prefix {sh : Shard} (inv : ShardInv sh) (k : Nat) :
@@ -427,7 +561,7 @@ theorem shardInv_recover_prefix {sh : Shard} (inv : ShardInv sh) (k : Nat) :
   have hall : ∀ p, p ∈ ((List.range k).foldl Shard.flushStep sh).recover.minv.all ↔
       p ∈ ((List.range k).foldl Shard.flushStep sh).minv.disk := by
     intro p; simp [Shard.recover, Layers.recover, Layers.all]
-  refine ⟨rfl, ?_, ?_, ?_, ?_, ?_, ?_, ?_, ?_, ?_, ?_⟩
+  refine ⟨rfl, ?_, ?_, ?_, ?_, ?_, ?_, ?_, ?_, ?_, ?_, fun _ _ _ => rfl, fun d hd => by simp [Shard.recover, KvStore.recover] at hd⟩
   · intro m ts i h; simp [Shard.recover, KvStore.recover, KvStore.immDict, Dict.empty] at h
   · intro m ts i h; rw [hl]; exact h
   · intro m ts i h; rw [hl] at h; rw [hall]; exact (cover _ _ _ h).1
